@@ -8,6 +8,7 @@ package main
 // process (cycles, huge repetitions, deep recursion).
 
 import (
+	"fmt"
 	"strings"
 	"time"
 )
@@ -81,8 +82,61 @@ func runC02(cfg Config, r *Result) {
 			r.Sample(map[string]any{"program": src})
 		}
 	}
+	// typed functions whose if / else-if / else branches return or fall through in every combination:
+	// the parser must reject those with a path that does not return; accepted ones must never go wrong
+	for i := 0; i < cfg.N(400, 6000); i++ {
+		src := c02ReturnPaths(cfg)
+		d := semCase(model, r, src, SemOpts{StopAt: -1, YieldBudget: 100000}, true, "retpaths:")
+		for _, p := range d.Impl.Phases {
+			if c02Bad(p.Class) {
+				r.Violate(Violation{Kind: "property", Key: "accepted-program-goes-wrong:" + p.Class + ":" + shortKey(firstLine(d.Impl.GoPanic)),
+					Detail: "a function accepted by the parser reaches its end without returning a value: " + p.Class + " " + d.Impl.GoPanic, Input: map[string]any{"program": src}, Impl: p})
+			}
+		}
+	}
 	// the certificate checker Static.wt on every parser-accepted tree (corpus, generated programs, witnesses)
 	runC02WT(cfg, r)
+}
+
+// c02ReturnPaths builds a typed function with an if / else-if* / else? chain (possibly nested in a loop or a
+// second chain) in which each branch independently returns or falls through, followed or not by a final return,
+// and calls it so that every branch is taken and the result is used.
+func c02ReturnPaths(cfg Config) string {
+	rng := cfg.Rng
+	var b strings.Builder
+	rt := []string{"num", "string", "[]num"}[rng.Intn(3)]
+	val := map[string]string{"num": "n", "string": `"s"`, "[]num": "[n]"}[rt]
+	b.WriteString("func f:" + rt + " n:num\n")
+	nb := 1 + rng.Intn(3)
+	branch := func(ind string) {
+		switch rng.Intn(4) {
+		case 0:
+			b.WriteString(ind + "print \"fall\" n\n")
+		case 1:
+			b.WriteString(ind + "if n > 100\n" + ind + "    return " + val + "\n" + ind + "end\n")
+		default:
+			b.WriteString(ind + "return " + val + "\n")
+		}
+	}
+	b.WriteString("    if n < 0\n")
+	branch("        ")
+	for i := 0; i < nb; i++ {
+		fmt.Fprintf(&b, "    else if n == %d\n", i)
+		branch("        ")
+	}
+	if rng.Intn(4) > 0 {
+		b.WriteString("    else\n")
+		branch("        ")
+	}
+	b.WriteString("    end\n")
+	if rng.Intn(3) == 0 {
+		b.WriteString("    return " + val + "\n")
+	}
+	b.WriteString("end\n")
+	for i, v := range []string{"-1", "0", "1", "2", "7"} {
+		fmt.Fprintf(&b, "r%d := (f %s)\nprint r%d (typeof r%d)\n", i, v, i, i)
+	}
+	return b.String()
 }
 
 func init() { register("C02", runC02) }
